@@ -137,7 +137,11 @@ var c11Alphabet = []string{
 
 func c11RepoFiles() []string {
 	var out []string
-	filepath.Walk("/repo", func(p string, info os.FileInfo, err error) error {
+	root := "/repo"
+	if alt := os.Getenv("VERIF_REPO"); alt != "" {
+		root = alt
+	}
+	filepath.Walk(root, func(p string, info os.FileInfo, err error) error {
 		if err == nil && !info.IsDir() && strings.HasSuffix(p, ".py") && info.Size() < 40000 {
 			out = append(out, p)
 		}
